@@ -105,6 +105,16 @@ add("C19", "other",
     "compared with the construction; and the full report text is compared byte for byte with the VM model.", COMMON_NOTE,
     "constructed-oracle testing of the Go report + byte-level correspondence with the Coq VM model")
 
+add("C17", "other",
+    "Partial. Proved in Coq (PropC17.v): aton(toa(n)) = n for every integer (decimal text round trip, sign and range), toa "
+    "renders exactly what write prints, aton of a non-string is a type error; the generator built-ins are evaluated by Sem over "
+    "trees regenerated from builtin/builtin.go on every run (an edit there re-checks or breaks these). Open: general "
+    "fromto/elems/indices specifications and the float text round trip. Decided each run on the real code: toa vs the bytes "
+    "write prints and aton(toa(x)) == x over int boundary classes and floats given by exact decimal text; generator built-ins "
+    "against computed expectations incl. the ends of the int range; wrong-argument calls; read() histories through the real "
+    "binary with piped input (lines up to 20000 bytes, with/without final newline).", COMMON_NOTE,
+    "Coq proofs of the text round trip + translator-regenerated built-in trees + oracle testing of the Go code and binary")
+
 PENDING_REASON = "check under construction in this round (the technique applies; see DESIGN.md section 6); not yet claimed"
 
 
